@@ -311,14 +311,21 @@ def gen_weakhash_profile(seed, suite=(32, 1, 1), n=28):
     pairs = weakhash.pairs(n, seed)
     kr = s.add("derive_keypair", {"ikm": s.fresh(NSK[kem], "ikm")}, kem=kem)
     k = 0
+    # long values that agree except for ONE bit in the middle / just inside the first or last 512 bytes (a fingerprint
+    # over the ends, over a prefix, over sampled positions): a fresh value and a flipped copy of it
+    longs = {}
+    for n_long in (1100, 2500, 4200):
+        v = s.fresh(n_long, "long")
+        for pos in (n_long // 2, 513, n_long - 514, 300):
+            longs["long%d@%d" % (n_long, pos)] = (v, E("flip", v, 8 * pos + 3))
     for field in ("info", "psk_id", "psk"):
-        for kind, (a, b) in sorted(pairs.items()):
+        for kind, (a, b) in sorted(pairs.items()) + sorted(longs.items()):
             for order in (0, 1):
                 k += 1
                 mode = 0 if field == "info" and k % 2 else 1
                 vals = {"info": Lit(b"common info"), "psk": Lit(b"p" * 32), "psk_id": Lit(b"common id")}
                 sv, rv = dict(vals), dict(vals)
-                sv[field], rv[field] = Lit(a), Lit(b)
+                sv[field], rv[field] = (Lit(a), Lit(b)) if isinstance(a, bytes) else (a, b)
                 sargs = {"pk_r": E("out", kr, "pk"), "info": sv["info"], "rng": s.fresh(NSK[kem], "rng")}
                 rargs = {"sk_r": E("out", kr, "sk"), "info": rv["info"]}
                 if mode == 1:
